@@ -19,6 +19,7 @@ CONSTANTS
     CallModes = {"pos"}
     AugOn = {}
     PassOn = FALSE
+    AnnOn = FALSE
     ChainOn = FALSE
     LoopOn = FALSE
     MaxToks = 7
